@@ -160,6 +160,7 @@ fn scenario(cfg: &Cfg) -> Verdict {
         nested_env: false,
         yields: false,
         select: false,
+        policy: 0,
     });
     let local = cfg.local;
     let victim = e3::raw_conn("V");
